@@ -6,8 +6,9 @@
 //      while no loop is running is forgotten;
 //  (b) event_del()/event_free() from a thread other than the one running the
 //      loop blocks while that event's callback is executing (no EV_FINALIZE);
-//  (c) one EVLOOP_ONCE pass runs all timers that are due, in due order, ties
-//      in insertion order;
+//  (c) one EVLOOP_ONCE pass runs all timers that are due, in due order; ties are
+//      unordered in libevent (coarse clock + unstable heap): insertion order in
+//      deterministic-history mode, seeded order otherwise;
 //  (d) loopbreak wakes a blocked loop.
 // Freed events become tombstones for the rest of the run so that any later
 // use is reported as use-after-free / double-free (with the real library this
@@ -33,6 +34,7 @@ struct event {
 	bool activeq;
 	uint64_t due;
 	uint64_t ins;
+	uint64_t tie;
 	bool freed;
 };
 
@@ -82,7 +84,7 @@ static void check_event(const event* ev, const char* fn) {
 static event* earliest(event_base* b) {
 	event* best = nullptr;
 	for (event* e : b->timers)
-		if (!best || e->due < best->due || (e->due == best->due && e->ins < best->ins)) best = e;
+		if (!best || e->due < best->due || (e->due == best->due && (e->tie < best->tie || (e->tie == best->tie && e->ins < best->ins)))) best = e;
 	return best;
 }
 
@@ -150,6 +152,7 @@ struct event* event_new(struct event_base* b, evutil_socket_t fd, short what, ev
 	e->activeq = false;
 	e->due = 0;
 	e->ins = 0;
+	e->tie = 0;
 	e->freed = false;
 	b->all.push_back(e);
 	ev::g_events.push_back(e);
@@ -183,6 +186,7 @@ int event_add(struct event* ev, const struct timeval* tv) {
 	if (tv) d = (uint64_t)tv->tv_sec * 1000000000ull + (uint64_t)tv->tv_usec * 1000ull;
 	ev->due = usim::now_ns() + d;
 	ev->ins = ++ev->base->ins_seq;
+	ev->tie = usim::deterministic_mode() ? 0 : usim::rnd(1u << 20);
 	ev->pending = true;
 	ev->base->timers.push_back(ev);
 	ev::n_add++;
